@@ -134,6 +134,17 @@ CLAIMED = {
              "from the statement.",
         note=TRUST + ". Nodes and edges are read through networkx's public API.",
         ref="3 C14"),
+    "C15": dict(
+        text="(A)+(B) MC_Ser documents (graph mode: n-ary relations, undeclared endpoints, missing arguments, repeated "
+             "identifiers, labels and values from the quoting-hazard / markup pools; shapes mode with bundles) x all 16 "
+             "combinations of the display options x directions (incl. an invalid one); (C) Graphviz itself "
+             "(dot -Tdot_json, dot -Tsvg) parses and renders the emitted text and TLC compares the structure "
+             "(element nodes per cluster, generic nodes, one path per relation through a blank node when n-ary or "
+             "annotated, annotation rows, clusters, rankdir, rendered label text) with DotOf written in TLA+ from the "
+             "statement.",
+        note=TRUST + ". Graphviz 2.43 is the acceptance oracle and the DOT parser; annotation VALUE texts are not "
+             "compared; quick samples the document x option product.",
+        ref="3 C15"),
 }
 for _c in CLAIMED.values():
     _c.setdefault("technique", TECH)
